@@ -18,6 +18,11 @@ UNITS = [
 """,
          ensures=[("rel", "self.process_rel(state, r)")],
          body_prefix=BOTH,
+         # equal multisets have equal lengths: "selects at least one node" is the same for the evaluator's and the RFC nodelist
+         hints=[("let res = expr.process(state.clone());",
+                 "proof { match &**expr { Test::RelQuery(v) => { lemma_ms_len(nodes(res.data), rfc_segs(v@, seq![cur_node(cur_of(state))], state.root)); } "
+                 "Test::AbsQuery(q) => { lemma_ms_len(nodes(res.data), rfc_segs(q.segments@, seq![root_node(state.root)], state.root)); } _ => {} } "
+                 "assert(!(**expr is Function) ==> (nodes(res.data).len() > 0) == test_truth(**expr, cur_of(state), state.root)); }")],
          closures={1: Cl(expect="State::bool(b, state.root)", types=["bool"], ret="(s: State<'a, T>)",
                          ensures=[("def", "s.root == state.root && s.data == Data::<'a, T>::Value(T::from_bool_spec(b))")])}),
     Unit(name="Test::process", calls=['Vec<Segment>::process', 'JpQuery::process', 'TestFunction::process'], file="src/query/test.rs", impl="impl Query for Test", fn="process", order=34,
@@ -27,11 +32,13 @@ UNITS = [
     open spec fn process_rel<'a, T: Queryable>(&self, state: State<'a, T>, r: State<'a, T>) -> bool {
         match *self {
             Test::Function(tf) => fn_rel(*tf, state, r),
-            _ => r.root == state.root && is_nodes(r.data) && nodes(r.data) == test_nodes(*self, cur_of(state), state.root)
+            // the query's nodelist: the RFC nodes with their multiplicities (and the RFC sequence when exact, rfc_reading)
+            _ => r.root == state.root && is_nodes(r.data) && test_reading(*self, nodes(r.data), cur_of(state), state.root)
                 && (test_singular(*self) ==> one_or_none(r.data)),
         }
     }
 """,
          ensures=[("rel", "self.process_rel(state, r)")],
-         body_prefix="proof { lemma_cur_nodes(state); }"),
+         body_prefix="proof { lemma_cur_nodes(state); match self { Test::RelQuery(v) => { lemma_rfc_reading(v@, seq![cur_node(cur_of(state))], state.root); } "
+                     "Test::AbsQuery(q) => { lemma_rfc_reading(q.segments@, seq![root_node(state.root)], state.root); } _ => {} } }"),
 ]
